@@ -15,8 +15,13 @@ THEOREMS = [
     'Pfst.C07.copy_text_line', 'Pfst.C07.copy_text_first', 'Pfst.C07.copy_text_mid', 'Pfst.C07.copy_text_last',
     'Pfst.C07.copy_lines_length', 'Pfst.C07.dedent_text_line', 'Pfst.C07.dedent_pos_nonneg', 'Pfst.C07.copy_wf',
     'Pfst.C07.conservation', 'Pfst.C07.dedent_indent_line', 'Pfst.C07.dedent_indent',
+    'Pfst.C07.restore_insert', 'Pfst.C07.restore_insert_span',
 ]
-RULE = ('every call of the real _make_fst_and_dedent made while copy()/get_slice()/cut()/view.copy() run on sampled nodes '
+RULE = ('deterministic product first: every node copy and every slice [i:j] of every real AND virtual list field (_all, _args, '
+        '_bases, _body, _attrs; all three routes get_slice/get/view at both ends) of fixed shapes on which pfst rewrites the '
+        'source temporarily (sole generator-expression argument one-line and multi-line, parenthesis-less ClassDef, naked '
+        'tuples / with items, decorators, MatchMapping rest, Compare._all, Call._args) and with multi-byte identifiers in every '
+        'identifier position; then: every call of the real _make_fst_and_dedent made while copy()/get_slice()/cut()/view.copy() run on sampled nodes '
         'and on every slice [i:j] (bounded) of every list field of corpus programs (hand snippets, generated programs, '
         'layout/comment/paren mutations, stdlib chunks, generated programs with multi-line str/bytes/raw/f-string '
         'literals as statements / values / arguments in blocks 1-3 deep, and generated programs with statements and '
@@ -41,6 +46,13 @@ TRUSTED = [
     'literal values: every str/bytes constant of CPython\'s parse of the returned source is compared with the original; '
     'only str constants standing alone as an expression statement are compared modulo blanks (documented docstring '
     're-indentation); the lines the dedent may touch inside string tokens are limited to those same constants per case',
+    '"never disturbs" is judged on: source text, ast.dump(include_attributes=True), every FST link (a.f.a, parent, pfield, '
+    'root) before/after, the read-only entry points own_src/own_lines/dump/copy_ast/src/lines inside the same window, and a '
+    'second identical call returning the identical piece; caches are not compared (filled lazily by reads, see C02)',
+    'restore_insert / restore_insert_span are about the line edit _put_src (Pfst.Copy.putSrcLines, tied by the src_lines '
+    'comparison of every recorded cut); the temporaries of the slice handlers themselves are tied only by the purity sweep',
+    'recorded calls on a Compare whose operands are statement placeholders (temporary state of the _all handler) are tallied, '
+    'not replayed',
     'token conservation counts identifiers, numbers, strings (modulo re-indentation of continuation lines), f-string '
     'middles and comments; keywords (except True/False/None) and the word `set` are structure the move may add or drop',
     'recorded calls whose put_loc has end before start (produced by the defect C07-F1 before its repair) lie outside the '
@@ -118,6 +130,51 @@ def _do_del(root, op, opts):
     return t.put_slice(None, i, j, field, **opts)
 
 
+def _is_virtual(field):
+    return field is not None and field.startswith('_')
+
+
+def _flen(t, field):
+    """length of a real or virtual list field of FST node `t` (None = default field of Dict)"""
+    if field is None:
+        return len(t.a.keys)
+    if _is_virtual(field):
+        return len(getattr(t, field))
+    return len(getattr(t.a, field))
+
+
+def _header_line_first(t, op, n_field):
+    """positions only: the cut starts with the first statement of a block, that statement sits on the block header line,
+    and the statement after the cut sits on a later line (known defect C02-F2 / C07-F15)"""
+    try:
+        if op[0] == 'copy':
+            par, lst, i = t.parent.a, getattr(t.parent.a, t.pfield.name), t.pfield.idx
+            j = i + 1
+        else:
+            par = t.a
+            lst = getattr(par, 'body' if op[2] == '_body' else op[2])
+            off = len(lst) - n_field if op[2] == '_body' else 0
+            i, j = op[3] + off, op[4] + off
+        return (i == 0 and isinstance(lst, list) and j < len(lst) and lst[0].lineno == par.lineno
+                and lst[j].lineno > lst[j - 1].end_lineno)
+    except Exception:
+        return False
+
+
+def _links(root):
+    """every FST link of the tree: node class, pfield, parent AST identity, a.f.a round trip, root pointer"""
+    out = []
+    for a in ast.walk(root.a):
+        f = getattr(a, 'f', None)
+        if f is None:
+            out.append((a.__class__.__name__, 'NO-FST'))
+            continue
+        pf = f.pfield
+        out.append((a.__class__.__name__, pf.name if pf else None, pf.idx if pf else None,
+                    id(f.parent.a) if f.parent else None, f.a is a, f.root is root))
+    return out
+
+
 def _orig_elems(a, field, i, j):
     if field is None and isinstance(a, ast.Dict):
         return [(k, v) for k, v in zip(a.keys[i:j], a.values[i:j])]
@@ -148,7 +205,14 @@ def run_op(src, op, opts):
     def failc(cls, what):
         out['fails'].append((f'C07|cut{"" if op[0] == "copy" else "_slice"}|{fld}|{cls}', what))
 
-    tgt = t.a if op[0] == 'copy' else (getattr(t.a, op[2])[0] if op[2] else None)
+    if op[0] == 'copy':
+        tgt = t.a
+    elif op[2] == '_body':
+        tgt = t.a.body[-1]
+    elif op[2] and not _is_virtual(op[2]):
+        tgt = getattr(t.a, op[2])[0]
+    else:
+        tgt = None
     stmtlike = isinstance(tgt, (ast.stmt, ast.ExceptHandler, ast.match_case))
     docstr = opts.get('docstr', True)
     src0, dump0 = A.src, util.dump_pos(A.a)
@@ -179,13 +243,25 @@ def run_op(src, op, opts):
                 orig_lits = sum((ops.literal_bag(e, False) for e in els if e is not None), _c.Counter())
     except Exception:
         orig_lits = None
+    n_field = _flen(t, op[2]) if op[0] == 'slice' else None
+    links0 = _links(A)
     c = exc = None
     with ops.Recorder() as R:
         try:
+            if op[0] == 'copy':       # the other non-mutating entry points, inside the same purity window
+                for ro in (lambda: t.own_src(), lambda: t.own_lines(), lambda: t.dump(out='lines'), lambda: t.copy_ast(),
+                           lambda: t.src, lambda: t.lines):
+                    try:
+                        ro()
+                    except Exception as e:
+                        out['tally'].append(('readonly_raised', _exc_name(e)))
             c = _do_get(A, op, opts, False)
         except Exception as e:
             exc = e
     out['recs'] = R.recs
+    if _links(A) != links0:
+        d = [(x, y) for x, y in zip(links0, _links(A)) if x != y][:3]
+        fail('links-changed', f'FST links / pfields of the tree read from changed: {d}')
     # (1) the tree read from is untouched — also when the call refused
     if A.src != src0:
         fail('source-changed', 'the source text of the tree changed: ' + util.first_diff(A.src, src0))
@@ -203,6 +279,20 @@ def run_op(src, op, opts):
         return out
     kind = c.a.__class__.__name__
     out['tally'].append(('returned_kind', kind))
+    # a second identical call returns the identical piece and still leaves the tree alone
+    try:
+        c2 = _do_get(A, op, opts, False)
+        if not isinstance(c2, FST) or c2.src != c.src:
+            fail('second-copy-differs', f'the same call made twice returns different source: {c.src!r} then '
+                 f'{getattr(c2, "src", c2)!r}')
+        elif util.dump_pos(c2.a) != util.dump_pos(c.a):
+            fail('second-copy-differs', 'the same call made twice returns different trees: '
+                 + util.first_diff(util.dump_pos(c2.a), util.dump_pos(c.a)))
+    except Exception as e:
+        fail('second-copy-differs', f'the same call made a second time raised {e!r}')
+    if A.src != src0 or util.dump_pos(A.a) != dump0:
+        fail('source-changed' if A.src != src0 else 'tree-changed', 'the tree read from changed after a second identical call: '
+             + util.first_diff(A.src, src0))
     # self-contained: a root, sharing no node or list object with the tree it came from
     if c.parent is not None or c.root is not c:
         fail('not-root', 'returned tree is not a root')
@@ -241,6 +331,9 @@ def run_op(src, op, opts):
         if node is None and how.startswith('error') and not exempt and '\n' in csrc and ops.parses_when_wrapped(csrc, kind, ast.dump(c.a)):
             out['fails'].append((f'C07|{opname}|*|needs-pars', f'returned {kind} spans lines without being enclosed and does '
                                  f'not parse on its own ({how}); it does inside parentheses; src={csrc!r}'))
+        elif node is None and how.startswith('error') and not exempt and stmtlike and csrc.rstrip(' \t').endswith('\\'):
+            out['fails'].append((f'C07|{opname}|stmtlike|trailing-continuation', f'returned statement source ends with a dangling '
+                                 f'line continuation and does not parse on its own ({how}); src={csrc!r}'))
         elif node is None and how.startswith('error') and not exempt:
             fail('unparsable', f'returned source does not parse on its own as {kind}: {how}; src={csrc!r}')
         elif node is None and how.startswith('error'):
@@ -326,7 +419,7 @@ def run_op(src, op, opts):
         failc('cut!=delete-src', f'cut left different source than delete: ' + util.first_diff(B.src, Cc.src))
     else:
         d1, d2 = util.dump_pos(B.a), util.dump_pos(Cc.a)
-        emptied = op[0] == 'slice' and op[3] == 0 and op[4] == len(_orig_elems(t.a, op[2], 0, None))
+        emptied = op[0] == 'slice' and op[3] == 0 and op[4] == n_field
         if d1 != d2 and not (emptied and opts.get('norm') is not True and ast.dump(B.a) == ast.dump(Cc.a)):
             failc('cut!=delete-tree', 'cut left a different tree than delete: ' + util.first_diff(d1, d2))
     # (5) tokens and comments conserved
@@ -345,13 +438,18 @@ def run_op(src, op, opts):
                                  f'{B.src[-200:]!r} keeps/duplicates text: lost '
                                  f'{sorted(lost.items())[:4]} duplicated {sorted(dup.items())[:4]}'))
             lost = dup = None
+        if lost and stmtlike and _header_line_first(t, op, n_field):
+            out['fails'].append((f'C07|cut{"" if op[0] == "copy" else "_slice"}|stmtlike|header-deleted',
+                                 f'cutting the first statement of a block that starts on the header line and continues after `;` + '
+                                 f'line continuation deletes the block header too: remainder {B.src[:120]!r}; lost {sorted(lost.items())[:4]}'))
+            lost = dup = None
         if lost and all(k[0] == 'COMMENT' for k in lost) and not dup:
-            whole = op[0] == 'slice' and op[3] == 0 and op[4] == len(_orig_elems(t.a, op[2], 0, None)) or \
+            whole = op[0] == 'slice' and op[3] == 0 and op[4] == _flen(t, op[2]) or \
                 op[0] == 'copy' and isinstance(getattr(t.parent.a, t.pfield.name), list) and len(getattr(t.parent.a, t.pfield.name)) == 1
             after = False
             if stmtlike:
                 try:
-                    last = t.a if op[0] == 'copy' else getattr(t.a, op[2])[op[4] - 1]
+                    last = t.a if op[0] == 'copy' else getattr(t.a, 'body' if op[2] == '_body' else op[2])[op[4] - 1 + (len(t.a.body) - n_field if op[2] == '_body' else 0)]
                     texts = {k[1] for k in lost}
                     lns_ = [tk.start[0] for tk in util.tokens(src0) if tk.type == ops.tokenize.COMMENT and tk.string.rstrip() in texts]
                     after = bool(lns_) and all(ln_ > last.end_lineno for ln_ in lns_)
@@ -380,6 +478,7 @@ def run_op(src, op, opts):
 
 
 def _enum_ops(root, rng, nops):
+    full = nops >= 1000
     nodes = list(root.walk(True))
     copies, slices = [], []
     for idx, f in enumerate(nodes):
@@ -389,21 +488,45 @@ def _enum_ops(root, rng, nops):
         if isinstance(a, ast.expr_context) or f.loc is None:
             continue
         copies.append(('copy', idx))
+    import fst.fst_get_slice as _gs
+    virt = {}
+    for (cls, fld) in getattr(_gs, '_GET_SLICE_HANDLERS', {}):
+        if fld.startswith('_'):
+            virt.setdefault(cls, []).append(fld)
     for idx, f in enumerate(nodes):
         a = f.a
         fields = ops.list_fields(a)
         if isinstance(a, ast.Dict) and a.keys:
             fields = [(None, len(a.keys))]
+        for fld in virt.get(a.__class__, ()):
+            try:
+                n = len(getattr(f, fld))
+            except Exception:
+                continue
+            if n:
+                fields.append((fld, n))
         for field, n in fields:
             if field in ('ops', 'type_ignores'):
                 continue
             pairs = [(i, j) for i in range(n) for j in range(i + 1, n + 1)]
-            if len(pairs) > 10:
-                pairs = rng.sample(pairs, 10)
+            ends = [(0, n), (0, 1), (n - 1, n), (max(n - 2, 0), n), (0, max(n - 1, 1))]     # slices that reach each end
+            if len(pairs) > (28 if full else 10):
+                pairs = sorted(set(rng.sample(pairs, 10) + ends))
             for i, j in pairs:
-                slices.append(('slice', idx, field, i, j, rng.choice(['slice', 'slice', 'view', 'get']) if field else 'slice'))
+                if not field:
+                    routes = ['slice']
+                elif full and (i == 0 or j == n):
+                    routes = ['slice', 'view', 'get']
+                elif full:
+                    routes = [['slice', 'view', 'get'][(i + j) % 3]]
+                else:
+                    routes = [rng.choice(['slice', 'slice', 'view', 'get'])]
+                for route in routes:
+                    slices.append(('slice', idx, field, i, j, route))
     rng.shuffle(copies)
     rng.shuffle(slices)
+    if nops >= 1000:            # deterministic product: every op of the program
+        return copies + slices
     k = nops // 2
     return copies[:k] + slices[:nops - min(k, len(copies))]
 
@@ -596,6 +719,14 @@ def gen_comment_program(rng):
     return '\n'.join(lines) + ('\n' if rng.random() < 0.85 else '')
 
 
+def _parses(src):
+    try:
+        ast.parse(src)
+        return True
+    except SyntaxError:
+        return False
+
+
 def _special_programs(ctx, n):
     rng = random.Random(ctx.rng.random())
     out = []
@@ -613,6 +744,33 @@ def _programs(ctx, n, stdlib):
     rng = random.Random(ctx.rng.random())
     return corpus.programs(rng, n, stdlib=stdlib)
 
+
+# Deterministic product: every node copy and every slice (all routes at the ends) of these shapes is run on every run.
+# (a) shapes on which pfst rewrites the source temporarily during a read; (b) multi-byte identifiers in every
+# identifier-like position, with slices reaching both ends of every real / virtual list field.
+SHAPES = [
+    'total = sum(x * x for x in data)\n',
+    'total = sum(x * x\n            for x in data)\n',
+    'r = f(é for é in\n      ü if é)\nq = g(\n    (a for a in b)\n)\n',
+    'class C: pass\nclass Ď:\n    x = 1\n',
+    'class C(A, k=1, *b, **kw): pass\nclass Ü(Ä,\n        ö=1): pass\n',
+    'x = a, b,\\\n  c\nfor i, j in p, q: pass\nreturn_ = yield_, z\n',
+    'with a as b, c, (d, e) as f: pass\nwith (a as b,\n      c as ď): pass\nwith a, \\\n  b: pass\n',
+    '@d1\n@d2(a=1)\n@m.n\ndef f(): pass\n@é\nclass K: pass\n',
+    'a < b <= c != d is not e\nx = (a <\n     b > ñ)\n',
+    'f(a, *b, k=1, **kw)\ng(a, k=1, *b, j=2)\nh(größe=1, 日本=x, *é, **ü)\n',
+    'match v:\n    case {1: a, 2: b, **rest}: pass\n    case {"größe": g, "name": n, **übrige}: pass\n    case {**résté}: pass\n',
+    'match v:\n    case [a, *ñs, b]: pass\n    case (é, *ü): pass\n    case K(1, ä, größe=g, ñ=2): pass\n    case 1 | 2 as é: pass\n    case {"k": [x, *ý]} as ž: pass\n',
+    'import ü as ö, a.b as ç, d\nfrom m import ä as ö, b, ç as d\nfrom . import (é,\n    ñ as ü)\n',
+    'def f[Ť, *Ťs, **Þ](ä, /, b=1, *ç, ď: int = 2, **é) -> ü: pass\nclass C[Ť: int, Ü]: pass\ntype Ä[Ť, *Ü] = dict[Ť, Ü]\n',
+    'x = a.ñ.é(ü.ö)[ä].ç\ndel a.é, b[ñ], ç\nglobal_ = 1\ndef g():\n    global ä, ö\n    nonlocal_ = 1\n',
+    'def o():\n    é = 1\n    def i():\n        nonlocal é\n        é = 2\ntry: pass\nexcept E as é: pass\nexcept (F, G) as ñ: pass\n',
+    'lambda ä, /, ö=1, *ü, é, **ñ: (ä, ö)\nx = {"é": é, **ü, ñ: [é, "é"]}\ny = {é, *ü, ñ}\n',
+    'x = [é for é in ü if é if ñ for ä in ö]\ny = {é: ñ async for é, ñ in ü}\n',
+    's = f"{é!r:>{ñ}} ü {ä=}"\nt = "é" "ü" f"{ñ}"\n',
+    'é = ü = ñ = 1\né: ä = 2\né += ü\nassert é, ñ\nraise É from ü\n',
+    'if é:\n    ü\nelif ñ:\n    ä\nelse:\n    ö\nwhile é: ü; ñ\nfor é in ü: ñ\nelse: ä\n',
+]
 
 EXTRA = [
     'class Codec:\n    T = 1\n\n    def header(self):\n        x = 1\n        b"""MAGIC\n        line two\n          line three"""\n        blob = b"""one\n        two"""\n        return blob, x\n',
@@ -636,10 +794,17 @@ def _run_all(ctx):
     if key in _CACHE:
         return _CACHE[key]
     q = ctx.quick
+    shapes = [p for p in SHAPES if _parses(p)]
     special = EXTRA + _special_programs(ctx, 40 if q else 400)
-    progs = special + _programs(ctx, 140 if q else 1500, 12 if q else 200)
-    res = pmap(_prog_case, [(p, ctx.rng.randrange(1 << 30), (60 if q else 40) if i < len(special) else (10 if q else 24))
-                            for i, p in enumerate(progs)])      # the hand-written layout programs get (nearly) all their ops
+    progs = shapes + special + _programs(ctx, 140 if q else 1500, 12 if q else 200)
+    hard = corpus.hard_snippets() if hasattr(corpus, 'hard_snippets') else []
+    if q:
+        hard = random.Random(ctx.rng.random()).sample(hard, min(40, len(hard)))
+    nshape, nspecial = len(shapes), len(shapes) + len(special)
+    jobs = [(p, ctx.rng.randrange(1 << 30), 1000 if i < nshape else (60 if q else 40) if i < nspecial else (10 if q else 24))
+            for i, p in enumerate(progs)]
+    jobs += [(p, ctx.rng.randrange(1 << 30), 16 if q else 40) for p in hard]       # hard shapes appended AFTER the existing inputs
+    res = pmap(_prog_case, jobs)      # the hand-written layout programs get (nearly) all their ops
     items = [it for lst in res if lst for it in lst]
     _CACHE.clear()
     _CACHE[key] = items
